@@ -383,9 +383,30 @@ KNOWN_PROGRAMS = {
 }
 
 
+_ASTARB = ("re", ("seq", (("op", ("lit", 0x61), "*"), ("lit", 0x62))), False)
+_SEMI = ("match", ("lit", b";", "str"))
+_ABLOOP = ("loop", "l0", (("case", False, (((("lit", b"a", "str"),), None, ()), ((("lit", b"b", "str"),), None, (("break", "l0"),)))),))
+# programs that once failed and were repaired in /repo (see known_findings.json, status fixed): always re-run
+FIXED_PROGRAMS = {
+    "optional-reentrant-regex": ir.Program([], ["h0"], [], [], [], (("optional", (("match", _ASTARB),)), _SEMI), ["-O0"]),
+    "optional-reentrant-regex-append": ir.Program([("str", "s0", 1, False, b"", False)], [], [], [], [], (("optional", (("append", "s0", _ASTARB),)), _SEMI), ["-O0"]),
+    "optional-reentrant-loop": ir.Program([], ["h0"], [], [], [], (("optional", (_ABLOOP,)), _SEMI), ["-O3"]),
+    "loop-optional-reentrant-regex": ir.Program([], ["h0"], [], [], [], (("loop", None, (("optional", (("match", _ASTARB),)), _SEMI)),), ["-O1"]),
+    "optional-start-hook-reentrant": ir.Program([], ["h0"], [], [], [], (("match", ("lit", b"x", "str")), ("optional", (("hook", "h0"), ("match", _ASTARB))), _SEMI), ["-O1"]),
+}
+
+
 def main(ctx):
     quick = ctx.tier == "quick"
     known = tuple(ctx.open_keys)
+    for name, prog in sorted(FIXED_PROGRAMS.items()):
+        sh = Shard()
+        try:
+            check_program(sh, prog, list(prog.argv), 5, do_c=False)
+        except Failure as f:
+            sh.failures.append({"sig": f.sig, "what": "regression program %s: %s" % (name, f.what), "replay": f.replay})
+        sh.event("regression_cases")
+        ctx.total.merge(sh)
     for key, entry in sorted(ctx.open_keys.items()):
         sh = Shard()
         prog = KNOWN_PROGRAMS.get(key)
